@@ -105,6 +105,25 @@ int main(int argc, char** argv) {
       TimeZone s = TimeZone::forUtc(); s.setStdOffset(TimeOffset::forMinutes(sm)); s.setDstOffset(TimeOffset::forMinutes(dm)); if (!(s == tz)) bad("setters");
       c.add("manual_zones");
     }
+    // ---- manual zones: equality over ALL pairs of the (std, dst) grid (equal exactly when both offsets are equal - pairs
+    //      with the same total offset and the same DST flag but a different split are where a shortcut goes wrong)
+    {
+      std::vector<std::pair<int, int>> grid;
+      for (int sm = -720; sm <= 840; sm += 15) for (int dm = -60; dm <= 120; dm += 15) grid.push_back({sm, dm});
+      for (int sm : {1, -1, 32000, -32000}) for (int dm : {0, 1, 60}) grid.push_back({sm, dm});
+      std::vector<TimeZone> mz; for (auto& g : grid) mz.push_back(TimeZone::forTimeOffset(TimeOffset::forMinutes(g.first), TimeOffset::forMinutes(g.second)));
+      uint64_t same_total = 0;
+      for (size_t i = 0; i < mz.size(); i++) for (size_t k = 0; k < mz.size(); k++) {
+        bool want = grid[i] == grid[k];
+        bool eq = mz[i] == mz[k], ne = mz[i] != mz[k];
+        if (eq != want || ne == want) violation("c16:manual:equality-pair", fmt("{\"a\":[%d,%d],\"b\":[%d,%d],\"equal\":%d,\"not_equal\":%d}", grid[i].first, grid[i].second, grid[k].first, grid[k].second, eq, ne));
+        TimeZoneData da = mz[i].toTimeZoneData(), db = mz[k].toTimeZoneData();
+        if ((da == db) != want) violation("c16:manual:TimeZoneData-equality-pair", fmt("{\"a\":[%d,%d],\"b\":[%d,%d]}", grid[i].first, grid[i].second, grid[k].first, grid[k].second));
+        if (!want && grid[i].first + grid[i].second == grid[k].first + grid[k].second) same_total++;
+        c.add("manual_equality_pairs");
+      }
+      c.add("manual_pairs_same_total_offset_different_split", same_total);
+    }
     // ---- error zone
     TimeZone e = TimeZone::forError(); TimeZoneData de = e.toTimeZoneData();
     if (de.type != TimeZoneData::kTypeError || !xm.createForTimeZoneData(de).isError() || !bm.createForTimeZoneData(de).isError()) violation("c16:error-zone-restore", "{}");
